@@ -47,6 +47,7 @@ class Plan:
     inconclusive_ceiling: float = 0.5
     post_steps: list = field(default_factory=list)  # callables(ctx) -> dict(validated=int, notes=[...], violations=[(what, replay_src)], errors=[...])
     extra_coverage: dict = field(default_factory=dict)
+    require_ok_marker: bool = False  # a confirmed obligation must have at least one path that called path_ok()
 
 
 def fn_src(name, params, pres, body, post="_"):
@@ -225,6 +226,12 @@ def execute(plan, tier, seed):
                     notes.append("known finding %s no longer reproduces (%s)" % (e["id"], out.strip()[-200:]))
                     print("note: known finding %s no longer reproduces" % e["id"], flush=True)
         results = run_obligations(plan, work)
+        if plan.require_ok_marker:
+            for ob in plan.obs:
+                r = results[ob.oid]
+                if ob.expect == "confirmed" and r["verdict"] == "confirmed" and "'ok'" not in r.get("witnesses", []):
+                    r["verdict"] = "inconclusive"
+                    r["why"] = "vacuous: no explored path ran the program to its normal end"
         counts = {"confirmed": 0, "refuted": 0, "inconclusive": 0, "error": 0}
         twins_ok = twins_bad = twins_inc = 0
         main_total = main_conf = main_inc = 0
